@@ -107,3 +107,32 @@ Proof.
     - exists fr. auto. }
   exact G.
 Qed.
+
+(* ---------------------------------------------------------------- *)
+(* error paths of icmp6SendPacket and its callers: nothing is sent *)
+
+(* a message that does not fit the buffer (more than 1468 bytes after the IPv6 header) is refused: the
+   ErrPayloadTooBig of IP6.AppendPayload is returned (since fix d618c5a; it panicked before) *)
+Lemma icmp6_oversize c src dst p junk :
+  (EthMaxSize - 14 - 40 < length p)%nat -> icmp6_send_packet c src dst p junk = Ok [].
+Proof.
+  intros H. unfold icmp6_send_packet, ip6_append_payload.
+  destruct (Nat.ltb_spec (EthMaxSize - 14 - 40) (length p)) as [_|Hx]; [reflexivity|lia].
+Qed.
+
+(* ICMP6SendEchoRequest with a source or destination that is not IPv6: ErrInvalidIP *)
+Lemma echo6_refuses c src dst id seq junk :
+  is6 (a_ip src) = false \/ is6 (a_ip dst) = false -> send_echo6 c src dst id seq junk = Ok [].
+Proof. unfold send_echo6. intros [->| ->]; cbn; auto using orb_true_r. rewrite orb_true_r. reflexivity. Qed.
+
+(* a Router Advertisement whose options do not fit the buffer is refused as well *)
+Lemma ra_oversize c pf rd dst junk ob :
+  pf <> [] ->
+  cat_opts ((match rd with Some (lt, srv) => [rdnss_option lt srv] | None => [] end)
+            ++ map (fun p => prefix_option (u8 (fst p)) true true 7200 1800 (snd p)) pf
+            ++ [dnssl_lan_option 1200; mtu_option (u32 (mtu c)); lla_option 1 (host_mac c)]) = Some ob ->
+  (1452 < length ob)%nat -> send_ra c pf rd dst junk = Ok [].
+Proof.
+  intros Hp E Hl. unfold send_ra. destruct pf; [congruence|]. rewrite E. apply icmp6_oversize.
+  unfold ra_body, EthMaxSize. rewrite !app_length. cbn [length b32]. unfold bytes, byte in *. lia.
+Qed.
